@@ -205,6 +205,163 @@ theorem c10_spatial_hist_normalised (edges : List ℝ) (evs : List (ℝ × ℝ))
     rw [← C10.sumSeq_eq_sum]
     exact div_self htot
 
+/-! ### `add_events` / `reset` histories of the spatial background PDF -/
+
+namespace C10
+
+/-- what "non-negative and normalised" means for the histogram behind the log-spline -/
+def SpGood (edges : List ℝ) (p : List ℝ) : Prop :=
+  (∀ v ∈ p, 0 < v) ∧
+  sumSeq (List.zipWith (fun v w => spatialPd (Real.log v) * (2 * Real.pi * w)) p (widths edges)) = 1
+
+theorem sum_pos_of_pos (hs : List ℝ) (hne : hs ≠ []) (hpos : ∀ h ∈ hs, 0 < h) : 0 < hs.sum := by
+  cases hs with
+  | nil => exact absurd rfl hne
+  | cons a rest =>
+    rw [List.sum_cons]
+    have : 0 ≤ rest.sum := List.sum_nonneg (fun x hx => le_of_lt (hpos x (by simp [hx])))
+    have := hpos a (by simp)
+    linarith
+
+theorem normHist_good (edges hs : List ℝ) (hE : edges.IsChain (· < ·))
+    (hlen : hs.length = edges.length - 1) (hne : hs ≠ []) (hpos : ∀ h ∈ hs, 0 < h) :
+    SpGood edges (normHist hs (widths edges)) := by
+  have htot : 0 < sumSeq hs := by rw [sumSeq_eq_sum]; exact sum_pos_of_pos hs hne hpos
+  have hp : ∀ v ∈ normHist hs (widths edges), 0 < v := by
+    intro v hv
+    unfold normHist at hv
+    rw [List.mem_iff_getElem] at hv
+    obtain ⟨i, hi, rfl⟩ := hv
+    simp only [List.length_zipWith, lt_min_iff] at hi
+    simp only [List.getElem_zipWith]
+    exact div_pos (div_pos (hpos _ (List.getElem_mem hi.1)) htot) (widths_pos edges hE _ (List.getElem_mem hi.2))
+  refine ⟨hp, ?_⟩
+  rw [sumSeq_eq_sum]
+  show (List.zipWith _ (List.zipWith (fun h w => h / sumSeq hs / w) hs (widths edges)) (widths edges)).sum = 1
+  rw [spatial_mass_aux (sumSeq hs) (ne_of_gt htot) hs (widths edges) (by rw [hlen, widths_length])
+    (fun w hw => ne_of_gt (widths_pos edges hE w hw)) hp, ← sumSeq_eq_sum]
+  exact div_self (ne_of_gt htot)
+
+theorem hist1_nonneg (edges : List ℝ) (evs : List (ℝ × ℝ)) (hw : ∀ e ∈ evs, 0 ≤ e.2) :
+    ∀ h ∈ hist1 edges evs, 0 ≤ h := by
+  intro h hh
+  unfold hist1 at hh
+  simp only [List.mem_map, List.mem_range] at hh
+  obtain ⟨i, _, rfl⟩ := hh
+  rw [sumSeq_eq_sum]
+  apply List.sum_nonneg
+  intro v hv
+  simp only [List.mem_map, List.mem_filter] at hv
+  obtain ⟨e, ⟨he, _⟩, rfl⟩ := hv
+  exact hw e he
+
+/-- the invariant of a `BackgroundI3SpatialPDF` object -/
+def SpInv (edges : List ℝ) (s : SpState ℝ) : Prop :=
+  s.origHist.length = edges.length - 1 ∧ s.origHist ≠ [] ∧ (∀ h ∈ s.origHist, 0 < h) ∧
+  SpGood edges s.orig ∧ SpGood edges s.cur
+
+theorem spInv_step (edges : List ℝ) (hE : edges.IsChain (· < ·)) (s : SpState ℝ) (op : SpOp ℝ)
+    (h : SpInv edges s) : SpInv edges (spStep edges s op) := by
+  obtain ⟨hlen, hne, hpos, hgo, hgc⟩ := h
+  cases op with
+  | reset => exact ⟨hlen, hne, hpos, hgo, hgo⟩
+  | addEvents xs =>
+    refine ⟨hlen, hne, hpos, hgo, ?_⟩
+    show SpGood edges (normHist (List.zipWith (· + ·) s.origHist (hist1 edges (xs.map (fun x => (x, (1 : ℝ)))))) (widths edges))
+    have hcl : (hist1 edges (xs.map (fun x => (x, (1 : ℝ))))).length = edges.length - 1 := hist1_length _ _
+    have hcn := hist1_nonneg edges (xs.map (fun x => (x, (1 : ℝ))))
+      (by intro e he; simp only [List.mem_map] at he; obtain ⟨_, _, rfl⟩ := he; exact zero_le_one)
+    apply normHist_good edges _ hE
+    · simp [hlen, hcl]
+    · intro hnil
+      have : (List.zipWith (· + ·) s.origHist (hist1 edges (xs.map (fun x => (x, (1 : ℝ)))))).length = edges.length - 1 := by
+        simp [hlen, hcl]
+      rw [hnil] at this
+      have : s.origHist.length = 0 := by rw [hlen]; simpa using this.symm
+      exact hne (List.length_eq_zero_iff.mp this)
+    · intro v hv
+      rw [List.mem_iff_getElem] at hv
+      obtain ⟨i, hi, rfl⟩ := hv
+      simp only [List.length_zipWith, lt_min_iff] at hi
+      simp only [List.getElem_zipWith]
+      have h1 := hpos _ (List.getElem_mem hi.1)
+      have h2 := hcn _ (List.getElem_mem hi.2)
+      linarith
+
+end C10
+
+/-- **spatial background PDF over its whole life**: if the constructor succeeds (non-negative
+weights), then after *any* sequence of `add_events` (events inside, outside, on the edges of the
+binning; the binning need not cover [-1,1]) and `reset` calls, every bin of the histogram behind
+the current log-spline is positive and the density `1/(2π)·exp(log hᵢ)` integrates to one over the
+covered part of the sphere. -/
+theorem c10_spatial_hist_normalised_after_history (edges : List ℝ) (evs : List (ℝ × ℝ))
+    (s0 : SpState ℝ) (ops : List (SpOp ℝ)) (hE : edges.IsChain (· < ·)) (hw : ∀ e ∈ evs, 0 ≤ e.2)
+    (h : spInit edges evs = some s0) : C10.SpGood edges (spRun edges s0 ops).cur := by
+  unfold spInit at h
+  cases hp : spatialHist edges evs with
+  | none => rw [hp] at h; simp at h
+  | some p =>
+    rw [hp] at h
+    simp only [Option.map_some, Option.some.injEq] at h
+    have hgood : C10.SpGood edges p := c10_spatial_hist_normalised edges evs p hE hp
+    -- the raw histogram has positive content in every bin
+    have hnn := C10.hist1_nonneg edges evs hw
+    have hraw : (∀ v ∈ hist1 edges evs, 0 < v) ∧ hist1 edges evs ≠ [] := by
+      unfold spatialHist at hp
+      simp only at hp
+      split_ifs at hp with hz hany
+      simp only [Option.some.injEq] at hp
+      have htot0 : sumSeq (hist1 edges evs) ≠ 0 := fun h0 => hz ((C10.isZero_iff _).mpr h0)
+      have htot : 0 < sumSeq (hist1 edges evs) := by
+        rcases lt_or_eq_of_le (show 0 ≤ sumSeq (hist1 edges evs) by
+          rw [C10.sumSeq_eq_sum]; exact List.sum_nonneg hnn) with h' | h'
+        · exact h'
+        · exact absurd h'.symm htot0
+      constructor
+      · intro v hv
+        rw [List.mem_iff_getElem] at hv
+        obtain ⟨i, hi, rfl⟩ := hv
+        have hiw : i < (widths edges).length := by
+          rw [C10.widths_length, ← C10.hist1_length edges evs]; exact hi
+        have hmem : (hist1 edges evs)[i] / sumSeq (hist1 edges evs) / (widths edges)[i] ∈ p := by
+          rw [← hp, List.mem_iff_getElem]
+          exact ⟨i, by simp [hi, hiw], by simp⟩
+        have hpv := hgood.1 _ hmem
+        have hwp := C10.widths_pos edges hE _ (List.getElem_mem hiw)
+        by_contra hneg
+        have hle : (hist1 edges evs)[i] ≤ 0 := not_lt.mp hneg
+        have : (hist1 edges evs)[i] / sumSeq (hist1 edges evs) / (widths edges)[i] ≤ 0 :=
+          div_nonpos_of_nonpos_of_nonneg (div_nonpos_of_nonpos_of_nonneg hle (le_of_lt htot)) (le_of_lt hwp)
+        linarith
+      · intro hnil
+        rw [hnil] at htot0
+        exact htot0 (by simp [sumSeq])
+    have hinv0 : C10.SpInv edges s0 := by
+      rw [← h]
+      exact ⟨C10.hist1_length edges evs, hraw.2, hraw.1, hgood, hgood⟩
+    have hgen : ∀ (ops : List (SpOp ℝ)) (s : SpState ℝ), C10.SpInv edges s → C10.SpInv edges (spRun edges s ops) := by
+      intro ops
+      induction ops with
+      | nil => intro s hs; exact hs
+      | cons op rest ih =>
+        intro s hs
+        unfold spRun
+        rw [List.foldl_cons]
+        exact ih _ (C10.spInv_step edges hE s op hs)
+    exact (hgen ops s0 hinv0).2.2.2.2
+
+/-- normalising `add_events` by `_orig_hist.sum() + len(events)` instead of the updated histogram's
+sum loses the events outside the binning: one bin `[0,1]` holding weight 1, one added event at 5:
+the mass becomes 1/2. -/
+theorem c10_spatial_add_events_len_norm_counterexample :
+    sumSeq (List.zipWith (· * ·) (spStepLenNorm ([0, 1] : List ℚ) ⟨[1], [1], [1]⟩ [5]).cur (widths [0, 1])) = 1 / 2 ∧
+    sumSeq (List.zipWith (· * ·) (spStep ([0, 1] : List ℚ) ⟨[1], [1], [1]⟩ (.addEvents [5])).cur (widths [0, 1])) = 1 := by
+  constructor
+  · simp [spStepLenNorm, hist1, histBin, Livetime.digitize, sumSeq, widths, List.range, List.range.loop]
+    norm_num
+  · simp [spStep, normHist, hist1, histBin, Livetime.digitize, sumSeq, widths, List.range, List.range.loop]
+
 /-! ## Part 1 — time PDFs (ℝ, interval integrals) -/
 
 namespace C10
@@ -558,6 +715,45 @@ theorem c10_time_normalised_gauss (erf : ℝ → ℝ) (ivs : List (ℝ × ℝ)) 
     · exact absurd h1 (not_le.mpr h)
     · exact absurd h2 (not_lt.mpr (le_of_lt h))
 
+/-! ### several trials on one object -/
+
+/-- **one trial, as coded** (fresh zero array + masked assignment): whatever the object held from
+the previous trial, the returned densities are the pointwise `timePd` of the new event times —
+in particular zero for every off-time event. -/
+theorem c10_time_trial_eq_pointwise {F : Type} [Add F] [Div F] [LE F] [DecidableLE F] [LT F]
+    [DecidableLT F] [OfNat F 0] (val : F → F) (ivs : List (F × F)) (S : F) (prev : Option (List F))
+    (times : List F) : trialPd val ivs S prev times = times.map (timePd val ivs S) := by
+  show List.zipWith _ (times.map (fun _ => (0 : F))) times = _
+  induction times with
+  | nil => rfl
+  | cons t rest ih =>
+    simp only [List.map_cons, List.zipWith_cons_cons, ih]
+    rfl
+
+/-- **any sequence of trials on one object** (equal or different event counts): every returned
+array equals the stateless density of that trial. -/
+theorem c10_time_trials_stateless {F : Type} [Add F] [Div F] [LE F] [DecidableLE F] [LT F]
+    [DecidableLT F] [OfNat F 0] (val : F → F) (ivs : List (F × F)) (S : F) (prev : Option (List F))
+    (trials : List (List F)) :
+    trialsRun val ivs S prev trials = trials.map (fun times => times.map (timePd val ivs S)) := by
+  induction trials generalizing prev with
+  | nil => rfl
+  | cons times rest ih =>
+    simp only [trialsRun, List.map_cons, ih, c10_time_trial_eq_pointwise]
+
+/-- the same statement for a buffer that is re-used between trials of equal event count -/
+def c10_time_trial_reuse_statement : Prop :=
+  ∀ (ivs : List (ℤ × ℤ)) (ts te S : ℤ) (prev : Option (List ℤ)) (times : List ℤ),
+    trialPdReuse (boxVal ts te) ivs S prev times = times.map (timePd (boxVal ts te) ivs S)
+
+/-- … is false: live-time `[0,1)`, trial 1 = `[0]` (on-time, density 1), trial 2 = `[5]` (off-time)
+keeps the 1. -/
+theorem c10_time_trial_reuse_counterexample : ¬ c10_time_trial_reuse_statement := by
+  intro h
+  have := h [(0, 1)] 0 1 1 (some [1]) [5]
+  revert this
+  decide
+
 /-! ### the cached normalisation `_S` over arbitrary histories -/
 
 namespace C10
@@ -748,3 +944,13 @@ example : ∃ p, spatialHist ([0, 1, 2] : List ℝ) [(0.5, 1), (1.5, 3)] = some 
 -- operations of the `_S` machine
 example : (tRun (fun _ => ((0 : ℤ), 10, boxInt 0 10)) (tInit (fun _ => ((0 : ℤ), 10, boxInt 0 10)) [(0, 4)] 0)
     [.setLivetime [(0, 2)]]).S = some 2 := by decide
+-- a spatial PDF object exists (hypothesis of `c10_spatial_hist_normalised_after_history`) …
+example : ∃ s, spInit ([0, 1, 2] : List ℝ) [(0.5, 1), (1.5, 3)] = some s := by
+  have h : spatialHist ([0, 1, 2] : List ℝ) [(0.5, 1), (1.5, 3)] = some [1 / 4 / 1, 3 / 4 / 1] := by
+    simp [spatialHist, hist1, histBin, Livetime.digitize, isZero, sumSeq, widths, List.range, List.range.loop]
+    norm_num
+  exact ⟨_, by unfold spInit; rw [h]; rfl⟩
+-- … and an add_events with one event inside and one outside the binning changes it
+example : (spStep ([0, 1, 2] : List ℤ) ⟨[1, 3], [], []⟩ (.addEvents [0, 7])).cur = normHist [2, 3] [1, 1] := by decide
+-- two trials of equal event count where index 0 goes from on-time to off-time
+example : trialsRun (boxVal (0 : ℤ) 1) [(0, 1)] 1 none [[0], [5]] = [[1], [0]] := by decide
